@@ -1179,6 +1179,11 @@ htp_status_t htp_connp_RES_FINALIZE(htp_connp_t *connp) {
 
     //unread last end of line so that RES_LINE works
     if (connp->out_current_read_offset < (int64_t)bytes_left) {
+        // The beginning of the line arrived in earlier chunks and is buffered. Keep only
+        // that part in the buffer, or the bytes unread here would be appended to it twice.
+        if (connp->out_buf != NULL) {
+            connp->out_buf_size = bytes_left - connp->out_current_read_offset;
+        }
         connp->out_current_read_offset=0;
     } else {
         connp->out_current_read_offset-=bytes_left;
